@@ -156,6 +156,7 @@ def elaborate (p : RawProj) : Elab :=
     G := p.G, start := p.start, stop := stop, size := size, projAlap := p.projAlap,
     onShift := fun r i => onShiftAt cal (rcal.getD r {}) i,
     projWork := projWorkAt cal, dayIdx := dayIdxAt cal, weekIdx := weekIdxAt cal,
+    leaveMark := fun r n => leaveMarkedAt cal (rcal.getD r {}) n,
     res := resD, limits := limits, tasks := taskD }
   { env := env, cal := cal, rcal := rcal }
 
